@@ -79,11 +79,17 @@ def run_gen():
 
 def _vfiles():
     res = []
+    skip = set()
+    sp = os.path.join(WORK, "skip.txt")      # developer aid: files a proof agent is still editing
+    if os.path.exists(sp):
+        skip = {l.strip() for l in open(sp) if l.strip()}
     for root, dirs, files in os.walk(COQ):
         dirs[:] = [d for d in dirs if not d.startswith(".") and not d.startswith("scratch")]
         for f in files:
             if f.endswith(".v") and not f.startswith("."):
-                res.append(os.path.relpath(os.path.join(root, f), COQ))
+                rel = os.path.relpath(os.path.join(root, f), COQ)
+                if rel not in skip:
+                    res.append(rel)
     return sorted(res)
 
 
